@@ -397,20 +397,20 @@ class PrimalDualHybridGradient(Alg):
             with self.x_device:
                 xp = self.x_device.xp
                 theta = 1 / (1 + 2 * self.gamma_primal * self.tau_min) ** 0.5
-                self.tau *= theta
+                self.tau = self.tau * theta
                 self.tau_min *= theta
 
             with self.u_device:
-                self.sigma /= theta
+                self.sigma = self.sigma / theta
         elif self.gamma_primal == 0 and self.gamma_dual > 0:
             with self.u_device:
                 xp = self.u_device.xp
                 theta = 1 / (1 + 2 * self.gamma_dual * self.sigma_min) ** 0.5
-                self.sigma *= theta
+                self.sigma = self.sigma * theta
                 self.sigma_min *= theta
 
             with self.x_device:
-                self.tau /= theta
+                self.tau = self.tau / theta
         else:
             theta = self.theta
 
